@@ -75,3 +75,28 @@ Definition squash {V} (S : sparse V) : sparse V :=
 (* what pyttb returns today (finding A-27): every mode gets extent nnz *)
 Definition squash_asis {V} (S : sparse V) : sparse V :=
   mkSp (map (fun _ => length (ssubs S)) (sshape S)) (ssubs (squash S)) (svals S).
+
+(* ------------------------------------------------------------------------------------------------------------
+   second stream (scalar-valued operations, sptenmat, mask): checkers appended for tools/props/c06.py *)
+(* the numbers returned for the stored orders of one request are all equal (exact comparison in Qc) *)
+Definition all_same_scalar (l : list Qc) : bool :=
+  match l with [] => true | x :: r => forallb (Qc_eq_bool x) r end.
+(* inner product of two denotations over all subscripts of the shape *)
+Definition zinner (s : shape) (f g : idx -> Z) : Z :=
+  fold_right Z.add 0%Z (map (fun k => (f (ind2sub s k) * g (ind2sub s k))%Z) (seq 0 (size s))).
+(* the first returned number is exactly the integer z *)
+Definition scalar_is (l : list Qc) (z : Z) : bool :=
+  match l with [] => true | x :: _ => Qc_eq_bool x (z2q z) end.
+(* the square of the first returned number is the integer z up to 1e-9 relative (norm = sqrt of a sum of squares) *)
+Definition norm_sq_is (l : list Qc) (z : Z) : bool :=
+  match l with [] => true | x :: _ => qclose tol9 (x * x)%Qc (z2q z) end.
+(* association lists subscript -> value (mask: one value per nonzero of the mask, listed in the mask's stored order):
+   keys pairwise distinct in every run and every run holds the same pairs *)
+Definition assoc_eqb (X Y : list (idx * Z)) : bool :=
+  Nat.eqb (length X) (length Y) &&
+  forallb (fun e => existsb (fun e' => idx_eqb (fst e) (fst e') && (snd e =? snd e')%Z) Y) X.
+Definition all_same_assoc (l : list (list (idx * Z))) : bool :=
+  match l with
+  | [] => true
+  | X :: r => forallb (fun Y => nodupb (map fst Y)) l && forallb (assoc_eqb X) r
+  end.
